@@ -53,7 +53,7 @@ Deliverables, all in %(wt)s/seed_out/ (create the directory):
   - demo.py    : a stand-alone script using only the public API of the library (imported from
                  PYTHONPATH) that exits 1 and prints FAIL on its last line when the property is
                  violated and exits 0 printing PASS on its last line when it holds.  It must PASS on
-                 the unchanged code (check with `git stash` / `git stash pop`) and FAIL with your
+                 the unchanged code (to test the unchanged code do NOT use `git stash` -- the stash is shared between worktrees and other people use it concurrently; instead save your diff to a file and use `git apply -R <file>` then `git apply <file>`) and FAIL with your
                  change.  The demo must test the property as stated, not an implementation detail;
   - meta.json  : {"property": "%(id)s", "summary": "<what was changed and why it looks innocent>",
                  "needs_to_manifest": "<what an input/history must contain for the violation to show>",
